@@ -406,6 +406,37 @@ theorem streamMerge_ctx_costs_nothing (s s' : St V) (h : step s .cCtx = some s')
 example : ∃ s : St (Option Int), Reach (init (Option Int) 1) s ∧ s.results = [.ctx, .item 0 (some 4)] :=
   ⟨_, reach_of_run [.inItem 0 (some 4), .cCall false, .cCtx, .cCall true, .sendOk 0] .refl rfl, by decide⟩
 
+/-- **The consumer's context may expire at any moment of a pending `Next`, and that costs nothing either**
+("all relative speeds of producer and consumer"). The expiry (`cExpire`, an action of the consumer's side:
+`inNext true → inNext false`) is possible exactly while a `Next` with a live context is pending; it changes
+nothing but that flag — no goroutine moves, nothing is taken, dropped or closed —; afterwards the `ctx.Done()`
+arm of that `Next` is enabled and taking it returns the context's error and nothing else
+(`streamMerge_ctx_costs_nothing`); the other arms stay as they were, so an item or the end / error that
+becomes available at the same time may be returned instead (Go's `select` picks either). -/
+theorem streamMerge_ctx_expiry_while_pending (s s' : St V) (h : step s .cExpire = some s') :
+    s.cpc = .inNext true ∧ s' = { s with cpc := .inNext false } ∧
+    (∃ s'', step s' .cCtx = some s'' ∧ s''.results = s.results ++ [.ctx] ∧ s''.gs = s.gs ∧ s''.out = s.out ∧
+      s''.cpc = .idle) ∧
+    (∀ i, step s' (.sendOk i) = step s (.sendOk i)) ∧
+    step s' .cEnd = step s .cEnd := by
+  obtain ⟨hp, rfl⟩ := step_cExpire h
+  have hx : step ({ s with cpc := .inNext false } : St V) .cCtx =
+      some { s with cpc := .idle, results := s.results ++ [.ctx] } := by simp [step, nextArmCtx_eq]
+  refine ⟨hp, rfl, ⟨_, hx, rfl, rfl, rfl, rfl⟩, ?_, ?_⟩
+  · intro i
+    simp only [step, hp]
+    cases s.gs[i]? with
+    | none => rfl
+    | some g => cases hpc : g.pc <;> simp [hpc]
+  · simp only [step, hp]
+
+/-- the consumer waits with a live context, input 0 is silent; the context expires; `Next` returns its error;
+the item that arrives later goes to the next `Next` — or, had it arrived between expiry and return, to this one -/
+example : ∃ s : St (Option Int), Reach (init (Option Int) 1) s ∧ s.results = [.ctx, .item 0 (some 4)] :=
+  ⟨_, reach_of_run [.cCall true, .cExpire, .cCtx, .inItem 0 (some 4), .cCall true, .sendOk 0] .refl rfl, by decide⟩
+example : ∃ s : St (Option Int), Reach (init (Option Int) 1) s ∧ s.results = [.item 0 (some 4)] :=
+  ⟨_, reach_of_run [.cCall true, .cExpire, .inItem 0 (some 4), .sendOk 0] .refl rfl, by decide⟩
+
 /-- **The merged stream ends only when every input has ended and everything was delivered** (the
 "only if" half of `streamMerge_end_iff_all_done`).
 In every reachable state in which the consumer has been told the normal end: every input's `Next`
@@ -448,16 +479,20 @@ theorem streamMerge_end_only_if_all_done (k : Nat) (s : St V) (h : Reach (init V
 /-- **The merged stream ends exactly when all inputs are exhausted and everything has been
 delivered.** Only if: `streamMerge_end_only_if_all_done`. If: in every reachable state in which every
 input's `Next` has returned `End` and the consumer is waiting in `Next` with a live context,
-(1) some step that needs no further input is enabled; (2) every enabled step either hands the normal
+(1) some step that needs no further input is enabled; (2) every enabled step other than the expiry of the
+consumer's own context (`cExpire` — after it that `Next` may return the context's error instead, which
+costs nothing: `streamMerge_ctx_costs_nothing`) either hands the normal
 end to that `Next`, or keeps the situation and strictly decreases the measure `nu2` (no item is left
 to deliver: no goroutine is in its loop any more); hence (3) some run of steps needing no further
-input delivers the normal end. -/
+input delivers the normal end. No fairness is asserted: (1)–(3) are enabledness, a strictly decreasing
+measure and the existence of a run; that the scheduler runs enabled goroutine steps is the trusted
+runtime assumption. -/
 theorem streamMerge_end_iff_all_done (k : Nat) (s : St V) (h : Reach (init V k) s) :
     (Res.endd ∈ s.results →
       (∀ i g, s.gs[i]? = some g → g.why = some .ended ∧ proj i s.out = g.items) ∧ s.errLog = []) ∧
     (AllEnded s → s.cpc = .inNext true →
       (∃ l, l ∈ internalLabels s ∧ ∃ s', step s l = some s') ∧
-      (∀ l s', step s l = some s' → AllEnded s' ∧
+      (∀ l s', l ≠ .cExpire → step s l = some s' → AllEnded s' ∧
         ((s'.cpc = .inNext true ∧ s'.results = s.results ∧ nu2 s' < nu2 s) ∨ s'.results = s.results ++ [.endd])) ∧
       (∃ ls s', run s ls = some s' ∧ InternalRun s ls ∧ s'.results = s.results ++ [.endd])) := by
   refine ⟨streamMerge_end_only_if_all_done k s h, ?_⟩
